@@ -26,7 +26,9 @@ def stripLeft (set : List Char) : List Char → List Char
 def stripSet (set : List Char) (cs : List Char) : List Char :=
   (stripLeft set (stripLeft set cs).reverse).reverse
 
-def isSpace (c : Char) : Bool := c = ' ' || c = '\t' || c = '\n' || c = '\r' || c = '\x0b' || c = '\x0c'
+/-- `str.split()` whitespace, ASCII: space, `\t \n \r \x0b \x0c` and the separators `\x1c`–`\x1f` -/
+def isSpace (c : Char) : Bool :=
+  c = ' ' || c = '\t' || c = '\n' || c = '\r' || c = '\x0b' || c = '\x0c' || c = '\x1c' || c = '\x1d' || c = '\x1e' || c = '\x1f'
 
 /-- `s.split()[0]`; `none` = IndexError (no token) -/
 def firstToken (cs : List Char) : Option (List Char) :=
@@ -49,6 +51,15 @@ def extend (result : List Char) : List (List Char) → List Char
 
 def isHexDigit (c : Char) : Bool := isHexLower c || isDigit c
 
+/-- `words[0].split(",")[0].strip("_'()\"")` -/
+def firstPiece (w0 : List Char) : List Char :=
+  match splitL ',' w0 with
+  | p :: _ => stripSet ['_', '\'', '(', ')', '"'] p
+  | [] => []
+
+/-- `result` before the loop: `words[0]` if it starts with a letter, else its cleaned first comma-piece -/
+def startOf (c0 : Char) (w0 : List Char) : List Char := if !isAlpha c0 then firstPiece w0 else w0
+
 /-- `key_split(s)`; `none` = an exception inside the `try` (the function then returns `"Other"`) -/
 def keySplitCore (cs : List Char) : Option (List Char) :=
   match splitL '-' cs with
@@ -57,12 +68,7 @@ def keySplitCore (cs : List Char) : Option (List Char) :=
     match w0 with
     | [] => none                                    -- words[0][0] → IndexError
     | c0 :: _ =>
-      let start := if !isAlpha c0 then
-          (match splitL ',' w0 with
-           | p :: _ => stripSet ['_', '\'', '(', ')', '"'] p
-           | [] => [])
-        else w0
-      let result := extend start ws
+      let result := extend (startOf c0 w0) ws
       if result.length == 32 && result.all isHexDigit then some "data".toList
       else
         match result with
@@ -78,5 +84,16 @@ def keySplit (s : String) : String :=
   match keySplitCore s.toList with
   | some r => String.ofList r
   | none => "Other"
+
+/-- `dask.utils.typename(typ, short)` for a class with `typ.__module__ = module` (`none`: `None`) and
+    `typ.__name__ = name`: builtins and module-less classes print bare; `short` keeps the top-level package only -/
+def typenameOf (module : Option String) (name : String) (short : Bool) : String :=
+  match module with
+  | none => name
+  | some m =>
+    if m.isEmpty || m == "builtins" then name
+    else
+      let pkg := if short then (match splitL '.' m.toList with | p :: _ => String.ofList p | [] => m) else m
+      pkg ++ "." ++ name
 
 end Dask.KeySplit
